@@ -1413,11 +1413,11 @@ Qed.
 Definition det_eq (a b : peer_state) : Prop :=
   t_queue b = t_queue a /\ t_ctok b = t_ctok a /\ t_e2u b = t_e2u a.
 
-Lemma signal_det_eq a b u t v : det_eq a b ->
-  det_eq (signal_component_changed a u t v) (signal_component_changed b u t v).
+Lemma signal_det_eq a b u t v ch : det_eq a b ->
+  det_eq (signal_component_changed a u t v ch) (signal_component_changed b u t v ch).
 Proof.
   intros (Hq & Hc & He). unfold signal_component_changed. rewrite Hc.
-  destruct (mem_pair _ _); repeat split; cbn; congruence.
+  destruct (tok_find _ _) as [at_|]; cbv zeta; [destruct (at_ =? ch)|]; repeat split; cbn; congruence.
 Qed.
 
 Lemma sync_detect_fix_rel pr pr' t last :
